@@ -40,6 +40,12 @@ FIXED = [
  ("C10","rejected:and,not","accept 'and not'","'dport = 80 and not proto = 6' (also 'or not', 'not(', 'not{') was rejected although every word form is documented; for inputs like 'dport -ne = 80' acceptance depended on Go map iteration order of the conversion table"),
  ("C04","inconsistent:*:query-failed","queries skip a day directory","a kill during the first write-out of a new day left a day directory without .blockmeta; every later query or listing covering that day failed ('error reading metadata file')"),
  ("C05","nil-but-wrong:readdir:monthdir:*","report a failure to list","a failing readdir of the month directory while locating the day to append to (EIO / EACCES) was swallowed: the writer started a second, suffix-less directory for the same day, Write returned nil and the day's earlier blocks were hidden from queries"),
+ ("C21","ipv6-packet-recorded-as-ipv4","IPv6 packets buffered","an IPv6 packet arriving while the capture is paused (write-out / status / live query) was buffered with isIPv4=true and recorded as an IPv4 flow with a garbage key (2001:db8::1>2001:db8::2:443/6 became v4 key 20010db8...)"),
+ ("C30","reader-crash:gpfile.(*GPDir).Close*","GPDir.Close can be called twice","a query whose directory recovery failed half-way during a concurrent write-out called GPDir.Close twice and crashed the process (nil pointer dereference in a worker goroutine)"),
+ ("C30","reader-error:metadata-missing","opening a day directory retries","a query failed with 'error reading metadata file' when the day directory was renamed a second time between locating the new name and opening the metadata"),
+ ("C30","query-no-snapshot","reading a block after a directory rename","a query overlapping a write-out returned rows with wrong column content (e.g. sip = the dip value): ReadBlockAtIndex's close+reopen recovery returned the buffers of already-read columns to the pool"),
+ ("C24","partial-day-with-gap-before-last-block-treated-as-complete","a day with a gap before","merge classified a source day {00:00,00:05,00:10,13:00} as complete (block duration inferred from the last two blocks); with --overwrite it replaced a partial destination day and lost its blocks"),
+ ("C24","dryrun-creates-destination-root","a merge dry run does not create","MergeDatabases with DryRun created a missing destination directory and a stage directory inside it"),
 ]
 
 KNOWN = [
